@@ -218,3 +218,52 @@ def run_main(pid, fn):
         print("MACHINERY-ERROR property=%s %s: %s" % (pid, type(e).__name__, str(e)[:2000]))
         sys.exit(2)
     sys.exit(rc)
+
+
+# ---- helpers shared by the checks -----------------------------------------------------------
+def generate(chk, name, module, cfg, scratch, workers=16, simulate=None, depth=None, seed=None, env=None,
+             coverage=False, timeout=3600, exhaustive=None):
+    """Run TLC on module/cfg; behaviours (or one-shot cases) are emitted to a scratch file whose
+    path is returned.  TLC statistics are added to the evidence."""
+    from . import tlc
+
+    out = scratch.path("%s.ndjson" % name)
+    if os.path.exists(out):
+        os.unlink(out)
+    e = {"OUT_FILE": out}
+    if env:
+        e.update(env)
+    r = tlc.run(module, cfg, scratch, env=e, workers=workers, simulate=simulate, depth=depth, seed=seed,
+                coverage=coverage, timeout=timeout)
+    chk.add_tlc(name, r, exhaustive=(simulate is None) if exhaustive is None else exhaustive)
+    return out, r
+
+
+def validate_traces(chk, name, module, cfg, traces, scratch, timeout=3600):
+    """Batch trace validation: `traces` (list) is written as one JSON array and checked by the
+    trace specification `module`.  Returns {trace index (0-based): events matched} for rejected
+    traces (empty dict when all are accepted)."""
+    import re
+
+    from . import tlc
+
+    path = scratch.path("%s.traces.json" % name)
+    with open(path, "w") as f:
+        json.dump(traces, f)
+    r = tlc.run(module, cfg, scratch, env={"TRACE_FILE": path}, workers=1, timeout=timeout, expect_violation=True)
+    chk.add_tlc(name, r, exhaustive=True)
+    rejected = {}
+    if '"REJECTED"' in r.stdout:
+        body = r.stdout[r.stdout.index('"REJECTED"'):]
+        body = body[: body.index("}>>") + 3] if "}>>" in body else body
+        for a, b in re.findall(r"<<(\d+), (\d+)>>", body):
+            rejected[int(a) - 1] = int(b)
+        if not rejected:
+            raise tlc.MachineryError("cannot parse REJECTED report:\n" + body[:500])
+    elif r.violation is not None and r.violation != "Postcondition":
+        # an invariant / action property of the specification failed on a recorded execution
+        rejected[-1] = 0
+        chk.note("trace_property_violated_" + name, {"property": r.violation, "tail": r.stdout[-3000:]})
+    elif "Postcondition" in r.stdout or "postcondition" in r.stdout:
+        raise tlc.MachineryError("postcondition failed without a report:\n" + r.stdout[-2000:])
+    return rejected, r
